@@ -30,7 +30,7 @@ ASSUMPTIONS = [
 @st.composite
 def params(draw, tier):
     p = {"rseed": draw(st.integers(0, 2 ** 32 - 1)), "ncells": draw(st.integers(4, 60 if tier == "thorough" else 28)),
-         "ne": draw(st.integers(3, 9))}
+         "ne": draw(st.integers(3, 9)), "ragged": draw(st.sampled_from([0.0, 0.0, 0.25, 0.4]))}
     nt = 8 if tier == "thorough" else 3
     p["transforms"] = [{"sym": draw(st.integers(0, 7)), "pad": [draw(st.integers(0, 9)) for _ in range(4)],
                         "mirror_y": draw(st.booleans())} for _ in range(nt)]
@@ -90,10 +90,12 @@ def degree_signature(n, pairs, border):
 
 
 def check_image(p, ctx):
-    img = raster.make_image(p["rseed"], p["ncells"])
+    img = raster.make_image(p["rseed"], p["ncells"], p.get("ragged", 0.0))
     if img is None:
         ctx.skip("image preconditions not met (discarded)")
         return
+    if p.get("ragged"):
+        ctx.count("ragged-outline")
     t = img["tissue"]
     arr = img["array"]
     H, W = arr.shape
@@ -107,6 +109,10 @@ def check_image(p, ctx):
     exp_border = {c for c in t.cells if any(len(t.ridge_cells(ri)) == 1 for ri, _ in t.cells[c])}
     exp_junctions = sum(1 for j, rs in t.junction_ridges().items() if len(rs) >= 3)
     caj = t.cells_at_junction()
+    b2b = sum(1 for r in t.ridges if r.left is not None and r.right is not None and
+              len(caj_ := t.cells_at_junction()) and len(caj_[r.a]) < 3 and len(caj_[r.b]) < 3)
+    if b2b:
+        ctx.count("has-border-to-border-interface")
     interior_cells = len(t.cells) - len(exp_border)
     interior_junctions = sum(1 for j in t.J if len(caj[j]) >= 3)
     tmpdir = tempfile.mkdtemp(prefix="c15_")
@@ -197,7 +203,7 @@ def run_serial(ctx):
 
 
 def run(ctx):
-    drive(ctx, params(ctx.tier), check_image, ctx.budget(quick=22, thorough=60), label="image")
+    drive(ctx, params(ctx.tier), check_image, ctx.budget(quick=30, thorough=70), label="image")
 
 
 CASES = {"image": check_image, "shipped": check_shipped}
